@@ -5,7 +5,7 @@
 //!
 //! World ops (all performed by the instance's own user O = key 1 through the public mutation API):
 //!   room r=<n> t=<ms> | member r=<n> k=<key> role=user|admin|useradmin en=0|1 t=<ms>
-//!   row id=<n> r=<n> t=<ms> | ref src=<n> dst=<n> t=<ms> | delrow id=<n> t=<ms> | delref src=<n> dst=<n> t=<ms>
+//!   row id=<n> r=<n|-> t=<ms> | ref src=<n> dst=<n> t=<ms> | delrow id=<n> t=<ms> | delref src=<n> dst=<n> t=<ms>
 //! Connection ops:
 //!   open c=<n> | auth c=<n> k=<key> ready=0|1 | now t=<ms>
 //!   q c=<n> kind=<Kind> [r=<room>] [ids=a,b] [srcs=id:date,…] [ent=0|1] [date=<ms>]
@@ -94,6 +94,7 @@ pub struct World {
     used_rows: HashSet<u64>,
     row_no: HashMap<Uid, u64>,
     person: String,
+    peer_row: Uid,
     conns: BTreeMap<u64, Conn>,
     now: i64,
 }
@@ -130,6 +131,10 @@ impl World {
         let mut room_no = HashMap::new();
         rooms.insert(0u64, private_room);
         room_no.insert(private_room, 0u64);
+        let peer_row = svc.get_peer_node(key.clone()).await.ok().flatten().map(|n| n.id).unwrap_or([0u8; 16]);
+        let mut row_no = HashMap::new();
+        row_no.insert(private_room, 900u64);
+        row_no.insert(peer_row, 990u64);
         World {
             svc,
             own_key: key,
@@ -140,7 +145,8 @@ impl World {
             room_no,
             rows: BTreeMap::new(),
             used_rows: HashSet::new(),
-            row_no: HashMap::new(),
+            row_no,
+            peer_row,
             person: String::new(),
             conns: BTreeMap::new(),
             now: 1000,
@@ -163,7 +169,15 @@ impl World {
     fn room_uid(&self, n: u64) -> Uid {
         self.rooms.get(&n).copied().unwrap_or_else(|| ghost_room(n))
     }
+    /// aliases: rows created by `row`; 900+r = the definition row of room r (a room-less `sys.Room` row);
+    /// 990 = the instance's own `sys.Peer` row (room-less)
     fn row_uid(&self, n: u64) -> Uid {
+        if n == 990 {
+            return self.peer_row;
+        }
+        if (900..990).contains(&n) {
+            return self.rooms.get(&(n - 900)).copied().unwrap_or_else(|| ghost_row(n));
+        }
         self.rows.get(&n).copied().unwrap_or_else(|| ghost_row(n))
     }
     fn room_tag(&self, u: &Uid) -> String {
@@ -242,6 +256,7 @@ impl World {
                         let id = ent.node_to_mutate.id;
                         self.rooms.insert(r, id);
                         self.room_no.insert(id, r);
+                        self.row_no.insert(id, 900 + r);
                         if let Some(subs) = ent.sub_nodes.get("authorisations") {
                             self.groups.insert(r, subs[0].node_to_mutate.id);
                         }
@@ -297,23 +312,34 @@ impl World {
                 }
             }
             "row" => {
-                let (id, r, t) = match (get_u(kv, "id"), get_u(kv, "r"), get_i(kv, "t")) {
-                    (Some(i), Some(r), Some(t)) if !self.used_rows.contains(&i) => (i, r, t),
+                let (id, t) = match (get_u(kv, "id"), get_i(kv, "t")) {
+                    (Some(i), Some(t)) if !self.used_rows.contains(&i) && i < 900 => (i, t),
                     _ => return "bad-op".into(),
                 };
-                let rid = match self.rooms.get(&r) {
-                    Some(x) => *x,
+                // `r=-`: a private row that belongs to no room
+                let rid = match kv.get("r").map(|s| s.as_str()) {
+                    Some("-") => None,
+                    Some(r) => match r.parse::<u64>().ok().and_then(|r| self.rooms.get(&r)) {
+                        Some(x) => Some(*x),
+                        None => return "bad-op".into(),
+                    },
                     None => return "bad-op".into(),
                 };
                 if !self.set_time(t) {
                     return "bad-op".into();
                 }
-                let q = "mutate { Person { room_id:$r name:$n } }";
-                match self
-                    .svc
-                    .mutate_raw(q, Some(params(&[("r", base64_encode(&rid)), ("n", format!("p{}", id))])))
-                    .await
-                {
+                let res = match rid {
+                    Some(rid) => {
+                        self.svc
+                            .mutate_raw(
+                                "mutate { Person { room_id:$r name:$n } }",
+                                Some(params(&[("r", base64_encode(&rid)), ("n", format!("p{}", id))])),
+                            )
+                            .await
+                    }
+                    None => self.svc.mutate_raw("mutate { Person { name:$n } }", Some(params(&[("n", format!("p{}", id))]))).await,
+                };
+                match res {
                     Ok(mq) => {
                         let n = &mq.mutate_entities[0].node_to_mutate;
                         self.rows.insert(id, n.id);
